@@ -142,6 +142,7 @@ package fix
 //@   unfold bsum_snoc(s string, i int): requires 0 <= i && i < len(s) ensures bsum(sub(s, 0, i+1)) == bsum(sub(s, 0, i)) + code(s, i)
 //@   unfold bsum_cat(a string, b string): bsum(cat(a, b)) == bsum(a) + bsum(b)
 //@   unfold bsum_nonneg(s string): bsum(s) >= 0
+//@ lemma[C01] bsum_cong(a string, b string): requires a == b ensures bsum(a) == bsum(b)
 //@ spec pad3(s string) string = ite(len(s) == 0, cat("000", s), ite(len(s) == 1, cat("00", s), ite(len(s) == 2, cat("0", s), s)))
 //@ spec digits3(v int) string = cat(chr(48 + v/100), chr(48 + (v/10)%10), chr(48 + v%10))
 //@ lemma[C01,C03] pad3_dec(v int): requires 0 <= v && v < 256 ensures pad3(dec(v)) == digits3(v)
@@ -250,6 +251,7 @@ package fix
 //@ spec optL(b bytes) string = ite(len(b) > 0, cat(SOH, b), "")
 //@ spec wireCompN(c *Component) bytes = ite(c == nil, nilbytes, wireComp(c))
 //@ spec msgHead(msg *Message) string = cat(wireKV(msg.beginString), SOH, wireKV(msg.bodyLength), SOH, wireKV(msg.msgType))
+//@ spec msgTail(msg *Message) string = cat(optL(wireComp(msg.header)), optL(wireItemsB(msg.body)))
 //@ spec msgWF(msg *Message) bool = msg != nil && msg.header != nil && msg.beginString != nil && msg.bodyLength != nil && msg.msgType != nil && msg.checkSum != nil
 //@   && msg.bodyLength != msg.beginString && msg.bodyLength != msg.msgType && msg.checkSum != msg.beginString && msg.checkSum != msg.msgType && msg.checkSum != msg.bodyLength
 //@   && msg.checkSum.Value != nil && istype(msg.checkSum.Value, *String) && msg.checkSum.Value != msg.beginString.Value && msg.checkSum.Value != msg.msgType.Value
@@ -285,7 +287,23 @@ package fix
 //@   ensures[C01] @bodylen wireKV(msg.bodyLength) == bytes(cat(msg.bodyLength.Key, "=", dec(len(cat(wireKV(msg.msgType), T, SOH)))))
 //@   ensures[C01] @checksum c == digits3(bsum(cat(msgHead(msg), T, SOH)) % 256)
 //@   ensures[C01] @tail len(T) == optLen(wireComp(msg.header)) + optLen(wireItemsB(msg.body)) && (T == "" || code(T, 0) == 1)
-//@   lemma bsum_cat(cat(msgHead(msg), T), SOH); bsum_snoc(SOH, 0); bsum_empty(); wireV_int(msg.bodyLength.Value); wireV_string(msg.checkSum.Value)
+//@   ensures[C01,C17] @full string(msg.prepared) == cat(msgHead(msg), msgTail(msg), SOH, msg.checkSum.Key, "=", msg.checkSum.Value.(*String).value, SOH)
+//@   ensures[C01] @fullbodylen wireKV(msg.bodyLength) == bytes(cat(msg.bodyLength.Key, "=", dec(len(cat(wireKV(msg.msgType), msgTail(msg), SOH)))))
+//@   ensures[C01] @teq T == msgTail(msg)
+//@   ensures[C01] @ceq c == msg.checkSum.Value.(*String).value
+//@   ensures[C01] @fullchecksum msg.checkSum.Value.(*String).value == digits3(bsum(cat(msgHead(msg), msgTail(msg), SOH)) % 256)
+//@   lemma bsum_cat(cat(msgHead(msg), T), SOH); bsum_cong(cat(msgHead(msg), T, SOH), cat(msgHead(msg), msgTail(msg), SOH)); bsum_snoc(SOH, 0); bsum_empty(); wireV_int(msg.bodyLength.Value); wireV_string(msg.checkSum.Value)
+
+// ToBytes: the same image, handed to the caller (stated over the message's state, so that a
+// caller - and a ToBytes that skipped Prepare - is held to it)
+//@ func (msg *Message) ToBytes() (res []byte, err error)
+//@   requires msgWF(msg)
+//@   requires[C01] len(wireKV(msg.msgType)) > 0 && len(wireKV(msg.beginString)) > 0
+//@   modifies msg.prepared, msg.bodyLength.Value, msg.checkSum.Value.*
+//@   ensures[C01,C17] @noerr err == nil
+//@   ensures[C01,C17] @image string(res) == cat(msgHead(msg), msgTail(msg), SOH, msg.checkSum.Key, "=", msg.checkSum.Value.(*String).value, SOH)
+//@   ensures[C01] @bodylen wireKV(msg.bodyLength) == bytes(cat(msg.bodyLength.Key, "=", dec(len(cat(wireKV(msg.msgType), msgTail(msg), SOH)))))
+//@   ensures[C01] @checksum msg.checkSum.Value.(*String).value == digits3(bsum(cat(msgHead(msg), msgTail(msg), SOH)) % 256)
 
 // ---- value constructors and setters populate a value (C17) -------------------------
 //@ func NewString(v string) (res *String)
